@@ -30,6 +30,7 @@
 ; Routine to do AES key expansion
 
 %include "reg_sizes.asm"
+%include "clear_regs.inc"
 
 [bits 64]
 default rel
@@ -141,6 +142,9 @@ _aes_keyexp_128_sse:
 	movdqu	[EXP_ENC_KEYS + 16*10], xmm1
         movdqu	[EXP_DEC_KEYS + 16*0], xmm1
 
+%ifdef SAFE_DATA
+	clear_scratch_xmms_sse_asm
+%endif
 	ret
 
 ;;;;;;;;;;;;;;;;;;;;;;;;;;;;;;;;;;;;;;;;;;;;;;;;;;;;;;;;;;;;;;;;;;;;;;;;
@@ -215,6 +219,9 @@ _aes_keyexp_128_avx:
 	vmovdqu	[EXP_ENC_KEYS + 16*10], xmm1
         vmovdqu	[EXP_DEC_KEYS + 16*0], xmm1
 
+%ifdef SAFE_DATA
+	clear_scratch_xmms_avx_asm
+%endif
 	ret
 
 ;;;;;;;;;;;;;;;;;;;;;;;;;;;;;;;;;;;;;;;;;;;;;;;;;;;;;;;;;;;;;;;;;;;;;;;;
@@ -275,6 +282,9 @@ _aes_keyexp_128_enc_sse:
         key_expansion_128_sse
 	movdqu	[EXP_ENC_KEYS + 16*10], xmm1
 
+%ifdef SAFE_DATA
+	clear_scratch_xmms_sse_asm
+%endif
 	ret
 
 mk_global _aes_keyexp_128_enc_avx, function, internal
@@ -324,5 +334,8 @@ _aes_keyexp_128_enc_avx:
         key_expansion_128_avx
 	vmovdqu	[EXP_ENC_KEYS + 16*10], xmm1
 
+%ifdef SAFE_DATA
+	clear_scratch_xmms_avx_asm
+%endif
 	ret
 
